@@ -9,6 +9,10 @@ every other block keeps its kind and statements (its iteration count, which is 1
 written as 1), loops keep their counts, gate statements are untouched; the same in every macro body; header data
 are copied.
 
+A bounding NAME (the caller's string, or the default `prepare_all` / `measure_all`) that is defined as a macro of the
+circuit is refused with `JaqalError` before anything else (`C09_macro_clash`); all other theorems are about a run that
+succeeds, which implies there is no such clash.
+
 What the code does and the one-line summary of C09 does not say: the ITERATION COUNT of a subcircuit block
 (`subcircuit 100 { … }`) is dropped by the pass (`BlockStatement(parallel=block.parallel, statements=…)`), and the
 `parallel` flag of the block is kept (the grammar only produces sequential subcircuit blocks).
@@ -31,10 +35,13 @@ def spellMacro (p m : Stmt) (mc : Macro) : Macro := { name := mc.name, params :=
 theorem expand_ok {prep meas : Option GateDefChoice} {c c' : Circuit} (h : expandSubcircuits prep meas c = .ok c') :
     ∃ stmts, statementsOf (spell (prepStmt prep c) (measStmt meas c) c.body) = .ok stmts ∧
       loopsOk c.body = true ∧ (∀ m ∈ c.macros, loopsOk m.body = true) ∧
+      boundingClash prep "prepare_all" c = false ∧ boundingClash meas "measure_all" c = false ∧
       c' = { usepulses := c.usepulses, constants := c.constants, registers := c.registers,
              macros := c.macros.map (spellMacro (prepStmt prep c) (measStmt meas c)), natives := c.natives,
              body := .block false false (.int 1) stmts } := by
-  unfold expandSubcircuits at h
+  obtain ⟨hcp, hcm⟩ := expandSubcircuits_ok_noclash h
+  rw [expandSubcircuits_noclash hcp hcm] at h
+  unfold expandCore at h
   simp only [bind, Except.bind] at h
   cases hm : visitMacros (chooseBounding prep "prepare_all" c) (chooseBounding meas "measure_all" c) c.macros with
   | error e => rw [hm] at h; cases h
@@ -48,7 +55,7 @@ theorem expand_ok {prep meas : Option GateDefChoice} {c c' : Circuit} (h : expan
       | error e => rw [hs] at h; cases h
       | ok stmts =>
         rw [hs] at h; simp only [pure, Except.pure, Except.ok.injEq] at h
-        refine ⟨stmts, ?_, visitStmt_loopsOk _ _ _ _ hb, visitMacros_loopsOk _ _ _ _ hm, ?_⟩
+        refine ⟨stmts, ?_, visitStmt_loopsOk _ _ _ _ hb, visitMacros_loopsOk _ _ _ _ hm, hcp, hcm, ?_⟩
         · unfold prepStmt measStmt; rw [← visitStmt_spell _ _ _ _ hb]; exact hs
         · rw [← h, visitMacros_eq _ _ _ _ hm]; rfl
 
@@ -58,7 +65,7 @@ theorem C09_shape {prep meas : Option GateDefChoice} {c c' : Circuit} (h : expan
     c'.macros = c.macros.map (spellMacro (prepStmt prep c) (measStmt meas c)) ∧
     ∃ stmts, statementsOf (spell (prepStmt prep c) (measStmt meas c) c.body) = .ok stmts ∧
       c'.body = .block false false (.int 1) stmts := by
-  obtain ⟨stmts, hs, hlb, hlm, rfl⟩ := expand_ok h
+  obtain ⟨stmts, hs, hlb, hlm, hcp, hcm, rfl⟩ := expand_ok h
   exact ⟨rfl, stmts, hs, rfl⟩
 
 /-- what `spell` does to a subcircuit block: a block of the same `parallel` flag, no longer a subcircuit, iteration
@@ -78,7 +85,7 @@ theorem C09_shape_other (p m : Stmt) :
 theorem C09_shape_body {prep meas : Option GateDefChoice} {c c' : Circuit} {it : Val} {b : List Stmt}
     (hb : c.body = .block false false it b) (h : expandSubcircuits prep meas c = .ok c') :
     c'.body = spell (prepStmt prep c) (measStmt meas c) c.body := by
-  obtain ⟨stmts, hs, hlb, hlm, rfl⟩ := expand_ok h
+  obtain ⟨stmts, hs, hlb, hlm, hcp, hcm, rfl⟩ := expand_ok h
   rw [hb] at hs ⊢
   simp only [spell, Bool.false_eq_true, if_false, statementsOf, pure, Except.pure, Except.ok.injEq] at hs ⊢
   rw [hs]
@@ -86,7 +93,7 @@ theorem C09_shape_body {prep meas : Option GateDefChoice} {c c' : Circuit} {it :
 /-- **C09_none_left.** No subcircuit block remains, neither in the body nor in a macro. -/
 theorem C09_none_left {prep meas : Option GateDefChoice} {c c' : Circuit} (h : expandSubcircuits prep meas c = .ok c') :
     hasSub c'.body = false ∧ ∀ mc ∈ c'.macros, hasSub mc.body = false := by
-  obtain ⟨stmts, hs, hlb, hlm, rfl⟩ := expand_ok h
+  obtain ⟨stmts, hs, hlb, hlm, hcp, hcm, rfl⟩ := expand_ok h
   have hp : hasSub (prepStmt prep c) = false := by simp [prepStmt, boundGate, hasSub]
   have hm : hasSub (measStmt meas c) = false := by simp [measStmt, boundGate, hasSub]
   constructor
@@ -120,7 +127,7 @@ theorem C09_defs_native (c : Circuit) (n : String) (g : GateDef) (h : findNative
 theorem C09_header {prep meas : Option GateDefChoice} {c c' : Circuit} (h : expandSubcircuits prep meas c = .ok c') :
     c'.constants = c.constants ∧ c'.registers = c.registers ∧ c'.natives = c.natives ∧ c'.usepulses = c.usepulses ∧
     c'.macros.map (·.name) = c.macros.map (·.name) ∧ c'.macros.map (·.params) = c.macros.map (·.params) := by
-  obtain ⟨stmts, hs, hlb, hlm, rfl⟩ := expand_ok h
+  obtain ⟨stmts, hs, hlb, hlm, hcp, hcm, rfl⟩ := expand_ok h
   refine ⟨rfl, rfl, rfl, rfl, ?_, ?_⟩ <;> simp [spellMacro, Function.comp_def]
 
 /-- **C09_flat.** The gate statements of the result, in textual order, are those of the input with the gates of each
@@ -192,7 +199,7 @@ theorem C09_flat_sem (ρ : Sem.Env) (mden : Sem.MacroDen) (bnd : Sem.Bind) (pd m
 theorem C09_idempotent {prep meas : Option GateDefChoice} {c c' : Circuit} (h : expandSubcircuits prep meas c = .ok c') :
     expandSubcircuits prep meas c' = .ok c' := by
   have hnone := C09_none_left h
-  obtain ⟨stmts, hs, hlb, hlm, rfl⟩ := expand_ok h
+  obtain ⟨stmts, hs, hlb, hlm, hcp, hcm, rfl⟩ := expand_ok h
   -- same natives, so the same bounding definitions
   have hp : hasSub (prepStmt prep c) = false := by simp [prepStmt, boundGate, hasSub]
   have hm : hasSub (measStmt meas c) = false := by simp [measStmt, boundGate, hasSub]
@@ -215,7 +222,17 @@ theorem C09_idempotent {prep meas : Option GateDefChoice} {c c' : Circuit} (h : 
     cases meas with
     | none => rfl
     | some u => cases u <;> rfl
-  unfold expandSubcircuits
+  have hcl : ∀ (u : Option GateDefChoice) (d : String), boundingClash u d
+      { usepulses := c.usepulses, constants := c.constants, registers := c.registers,
+        macros := c.macros.map (spellMacro (prepStmt prep c) (measStmt meas c)), natives := c.natives,
+        body := .block false false (.int 1) stmts } = boundingClash u d c := by
+    intro u d
+    unfold boundingClash
+    cases boundingName u d with
+    | none => rfl
+    | some n => simp [List.any_map, spellMacro, Function.comp_def]
+  rw [expandSubcircuits_noclash (by rw [hcl]; exact hcp) (by rw [hcl]; exact hcm)]
+  unfold expandCore
   simp only [hch1, hch2]
   have hlp : loopsOk (prepStmt prep c) = true := by simp [prepStmt, boundGate, loopsOk]
   have hlq : loopsOk (measStmt meas c) = true := by simp [measStmt, boundGate, loopsOk]
@@ -240,13 +257,15 @@ theorem C09_idempotent {prep meas : Option GateDefChoice} {c c' : Circuit} (h : 
   simp [spellMacro, Function.comp, spell_spell _ _ hp hm hpp hmm]
 
 /-- **C09_total.** The pass fails only on a subcircuit block whose bounding definition takes parameters (and on a loop
-whose count is a float, which `LoopStatement` itself rejects): with parameterless definitions (the default), legal
-loop counts and a block as body it succeeds. -/
+whose count is a float, which `LoopStatement` itself rejects): and when a bounding NAME is defined as a macro (`C09_macro_clash`): with
+parameterless definitions (the default) whose names are not macros, legal loop counts and a block as body it succeeds. -/
 theorem C09_total (prep meas : Option GateDefChoice) (c : Circuit) (par sub : Bool) (it : Val) (b : List Stmt)
     (hb : c.body = .block par sub it b) (hlb : loopsOk c.body = true) (hlm : ∀ m ∈ c.macros, loopsOk m.body = true)
+    (hcp : boundingClash prep "prepare_all" c = false) (hcm : boundingClash meas "measure_all" c = false)
     (hp : (chooseBounding prep "prepare_all" c).params = []) (hm : (chooseBounding meas "measure_all" c).params = []) :
     ∃ c', expandSubcircuits prep meas c = .ok c' := by
-  unfold expandSubcircuits
+  rw [expandSubcircuits_noclash hcp hcm]
+  unfold expandCore
   simp only [bind, Except.bind, visitMacros_ok _ _ c.macros (Or.inl ⟨hp, hm⟩) hlm, visitStmt_ok _ _ c.body (Or.inl ⟨hp, hm⟩) hlb]
   rw [hb]
   cases sub <;> simp [spell, statementsOf, pure, Except.pure]
@@ -256,17 +275,46 @@ theorem C09_param_rejected (prep meas : Option GateDefChoice) (c : Circuit) (par
     (hmac : c.macros = []) (hb : c.body = .block par true it b)
     (hp : (chooseBounding prep "prepare_all" c).params ≠ []) :
     ∃ r, expandSubcircuits prep meas c = .error (.jaqal r) := by
-  unfold expandSubcircuits
+  have hcl : ∀ (u : Option GateDefChoice) (d : String), boundingClash u d c = false := by
+    intro u d; unfold boundingClash; cases boundingName u d <;> simp [hmac]
+  rw [expandSubcircuits_noclash (hcl _ _) (hcl _ _)]
+  unfold expandCore
   simp only [hmac, visitMacros, hb, visitStmt, if_true, bind, Except.bind, pure, Except.pure, callPos_nil, hp, if_false]
   exact ⟨_, rfl⟩
 
+/-- **C09_macro_clash.** A bounding name — the caller's string or the default `prepare_all` / `measure_all` — that is
+defined as a macro of the circuit makes the pass raise `JaqalError`, whether or not a subcircuit block occurs; a
+definition OBJECT supplied by the caller is never checked. -/
+theorem C09_macro_clash (prep meas : Option GateDefChoice) (c : Circuit)
+    (h : boundingClash prep "prepare_all" c = true ∨ boundingClash meas "measure_all" c = true) :
+    expandSubcircuits prep meas c = .error (.jaqal "bounding-name-is-a-macro") := by
+  rw [expandSubcircuits_eq]
+  rcases h with h | h
+  · simp [h]
+  · cases boundingClash prep "prepare_all" c <;> simp [h]
+
+theorem C09_macro_clash_iff (user : Option GateDefChoice) (dflt : String) (c : Circuit) :
+    boundingClash user dflt c = true ↔
+      ∃ n, boundingName user dflt = some n ∧ ∃ m ∈ c.macros, m.name = n := by
+  unfold boundingClash
+  cases boundingName user dflt with
+  | none => simp
+  | some n => simp [List.any_eq_true]
+
+theorem C09_defn_never_clashes (g : GateDef) (dflt : String) (c : Circuit) :
+    boundingClash (some (.defn g)) dflt c = false := rfl
+
 /-- **C09_total_class.** Whenever the pass rejects a circuit (whose body is a block, as every built circuit's is) the
-exception is a `JaqalError`: a bounding definition with parameters, or a loop count `LoopStatement` refuses. -/
+exception is a `JaqalError`: a bounding name that is a macro, a bounding definition with parameters, or a loop count
+`LoopStatement` refuses. -/
 theorem C09_total_class (prep meas : Option GateDefChoice) (c : Circuit) (par sub : Bool) (it : Val) (b : List Stmt)
     (hb : c.body = .block par sub it b) :
     ∀ err, expandSubcircuits prep meas c = .error err → ∃ r, err = .jaqal r := by
   have h : JaqalOnly (expandSubcircuits prep meas c) := by
-    unfold expandSubcircuits
+    rw [expandSubcircuits_eq]
+    apply JaqalOnly.ite (JaqalOnly.jaqal _)
+    apply JaqalOnly.ite (JaqalOnly.jaqal _)
+    unfold expandCore
     apply JaqalOnly.bind (visitMacros_class _ _ _)
     intro ms _
     apply JaqalOnly.bind (visitStmt_class _ _ _)
@@ -326,6 +374,17 @@ example : ∃ r, expandSubcircuits (some (.name "X")) none
     { exCircuit with macros := [], body := .block false true (.int 1) [] } = .error (.jaqal r) :=
   C09_param_rejected _ _ _ false (.int 1) [] rfl rfl (by decide)
 
+/-- `macro prepare_all { }` in a circuit without native gates: the default bounding name is a macro, the pass refuses
+(also without any subcircuit block); a definition object supplied by the caller is not checked -/
+def exClash : Circuit :=
+  { macros := [Macro.mk "prepare_all" [] (.block false false (.int 1) [])],
+    body := .block false false (.int 1) [.block false true (.int 1) []] }
+
+example : expandSubcircuits none none exClash = .error (.jaqal "bounding-name-is-a-macro") :=
+  C09_macro_clash none none exClash (Or.inl (by decide))
+
+example : ∃ c', expandSubcircuits (some (.defn exPrep)) none exClash = .ok c' := ⟨_, rfl⟩
+
 end Jaqal.ExpandSubcircuits
 
 #print axioms Jaqal.ExpandSubcircuits.C09_shape
@@ -343,3 +402,5 @@ end Jaqal.ExpandSubcircuits
 #print axioms Jaqal.ExpandSubcircuits.C09_total
 #print axioms Jaqal.ExpandSubcircuits.C09_param_rejected
 #print axioms Jaqal.ExpandSubcircuits.C09_total_class
+#print axioms Jaqal.ExpandSubcircuits.C09_macro_clash
+#print axioms Jaqal.ExpandSubcircuits.C09_macro_clash_iff
